@@ -455,7 +455,7 @@ fn gen_sign(rng: &mut Rng, keys: &[KeyCfg], req: &[u8]) -> Sign {
     if rng.chance(1, 4) { s.salg = mixed_case(rng, &s.salg); }
     let n_dev = match rng.below(6) { 0 | 1 => 0, 2 | 3 => 1, 4 => 2, _ => 3 };
     for _ in 0..n_dev {
-        match rng.below(17) {
+        match rng.below(19) {
             0 => { s.secret = (0..rng.range(0, 40)).map(|_| rng.byte()).collect(); }          // wrong secret
             1 => { s.skey = lname(&[b"unknown", b"keys"]); }                                   // unknown key
             2 => { s.sha256 = !s.sha256; s.salg = alg_name(s.sha256); s.maclen = out_len(s.sha256); } // key configured with the other algorithm
@@ -477,7 +477,10 @@ fn gen_sign(rng: &mut Rng, keys: &[KeyCfg], req: &[u8]) -> Sign {
             13 => { match rng.below(4) { 0 => s.cls = 1, 1 => s.cls = 254, 2 => s.ttl = *rng.pick(&[1u32, 0x7fff_ffff, 300]), _ => s.ttl = *rng.pick(&[0x8000_0000u32, 0x8000_0001, 0xffff_ffff]) } }
             14 => { s.place = rng.pick(&["notlast", "two", "an", "trail", "trail"]).to_string(); }
             15 => { if req.len() > 14 { s.skey = dns::pointer(12); } }                         // owner compressed against the QNAME
-            _ => { s.idmode = 1; }
+            16 => { s.idmode = 1; }
+            _ => {                                                                             // time, default fudge
+                s.offset = *rng.pick(&[300i64, -300, 301, -301, 305, -305, 295, -295, 1_000_000, -1_000_000, 86_400, -3600]);
+            }
         }
     }
     if s.tamper.is_some() {
@@ -523,8 +526,8 @@ fn long_query(rng: &mut Rng, edns: bool) -> Vec<u8> {
 }
 
 pub fn gen(rng: &mut Rng, thorough: bool, em: &mut Emitter) {
-    let n_cat = if thorough { 700 } else { 90 };
-    let per = if thorough { 24 } else { 16 };
+    let n_cat = if thorough { 2500 } else { 220 };
+    let per = if thorough { 36 } else { 20 };
     for _ in 0..n_cat {
         let zs = g_server::gen_catalog(rng);
         let payload = *rng.pick(&[512u16, 600, 1232, 4096, 65535]);
@@ -563,6 +566,27 @@ pub fn gen(rng: &mut Rng, thorough: bool, em: &mut Emitter) {
             _ => {}
         }
         emit_case(em, &zs, payload, &cat, &keys, &req, &s);
+    }
+    // sweeps on one valid configuration: every MAC length, every offset around the fudge boundary
+    {
+        let zs = g_server::gen_catalog(rng);
+        let cat = g_server::enc_catalog(&zs);
+        if g_server::make_server(&zs, 1232).is_some() {
+            for sha256 in [false, true] {
+                let keys = vec![KeyCfg { name: lname(&[b"sweep", b"keys"]), sha256, secret: (0..24).map(|_| rng.byte()).collect() }];
+                let req = g_server::gen_clean_query(rng, &zs);
+                let base = Sign { skey: keys[0].name.clone(), salg: alg_name(sha256), sha256, secret: keys[0].secret.clone(), offset: 0, fudge: 300,
+                                  maclen: out_len(sha256), tamper: None, tweak: 0, idmode: 0, err: 0, other: vec![], cls: 255, ttl: 0, place: "last".into() };
+                for maclen in 0..=36usize { let mut s = base.clone(); s.maclen = maclen; emit_case(em, &zs, 1232, &cat, &keys, &req, &s); }
+                for off in (-303i64..=-297).chain(297..=303) { let mut s = base.clone(); s.offset = off; emit_case(em, &zs, 1232, &cat, &keys, &req, &s); }
+                for f in [0u16, 1, 2] { for off in -3i64..=3 { let mut s = base.clone(); s.fudge = f; s.offset = off; emit_case(em, &zs, 1232, &cat, &keys, &req, &s); } }
+                if thorough {
+                    // every single-bit flip of the signed message
+                    let len = sign_request(&req, &base, 1_000_000_000).msg.len();
+                    for pos in 0..len { let mut s = base.clone(); s.tamper = Some((pos, 1u8 << rng.below(8))); emit_case(em, &zs, 1232, &cat, &keys, &req, &s); }
+                }
+            }
+        }
     }
     let r = CLOCK_RETRIES.load(std::sync::atomic::Ordering::Relaxed);
     let d = CLOCK_DISCARDS.load(std::sync::atomic::Ordering::Relaxed);
